@@ -1,4 +1,4 @@
-CONSTANTS MaxOps = 2  Bug = ""  Emit = TRUE
+CONSTANTS MaxOps = 1  Bug = ""  Emit = TRUE
   Ops = {"alloc", "lazy", "fault", "own"}
   UPages = {1, 4}
 CONSTANT Configs <- MCConfigsAll
